@@ -346,7 +346,7 @@ def big_edge_family(rng, thorough):
         K(30, connected_multigraph(30, 100001, 5), "m1e5")
         K(50, connected_multigraph(50, 1000001, 3), "m1e6")
         K(66000, [(i, i + 1, 1 + i % 3) for i in range(65999)], "chain66000")
-        for _ in range(25):
+        for _ in range(12):
             m = rng.choice([2049, 2300, 3000, 4097, 8200])
             n = rng.choice([3, 5, 20, 60, 200])
             K(n, connected_multigraph(n, m, rng.choice([1, 2, 3, 4, 100])), f"m{m}")
@@ -651,7 +651,7 @@ def run_prim_impl(case):
     graph, plain = build_graph(case, lab)
     start = None if case["start"] is None else lab(case["start"])
     assert not (start is None and case["start"] is not None), "a start labelled None cannot be passed (None means default)"
-    oneshot = case.get("adj_kind") == "gen"
+    oneshot = case.get("adj_kind") == "gen"   # a generator can be consumed only once: no snapshot / second call on the same object
     before = None if oneshot else graph_snapshot(graph, back)
     r = canon_result(prim(graph, start=start), back, case)
     alias = None
@@ -937,7 +937,7 @@ def shrink(case, r, budget=400):
                 break
             chunk = chunk // 2 if chunk > 1 else (1 if progressed else 0)
         return cur
-    if cur["sym"] and cur.get("adj_kind") != "gen":
+    if cur["sym"]:
         changed = True
         while changed and calls < budget:
             changed = False
@@ -1110,15 +1110,15 @@ def run(ctx: Ctx):
     cases += [gen_kruskal_deep(ctx.rng, big) for _ in range(ctx.budget(70, 2500))]
     cases += [gen_prim(ctx.rng, big, base=gen_deep_edges(ctx.rng, big)) for _ in range(ctx.budget(20, 500))]
     # round 2 (HARDENING.md): L labels, I iterables, M magnitudes, O option sweep, H event-directed, S sizes; A runs on every case
-    cases += [gen_prim_labels(ctx.rng, big) for _ in range(ctx.budget(70, 1500))]
+    cases += [gen_prim_labels(ctx.rng, big) for _ in range(ctx.budget(70, 800))]
     cases += [gen_prim_labels(ctx.rng, big, base=gen_deep_edges(ctx.rng, big)) for _ in range(ctx.budget(10, 200))]
-    cases += [gen_prim_iterables(ctx.rng, big) for _ in range(ctx.budget(50, 800))]
-    cases += [gen_kruskal_containers(ctx.rng, big) for _ in range(ctx.budget(40, 800))]
-    cases += [gen_kruskal_magnitude(ctx.rng, big) for _ in range(ctx.budget(60, 1500))]
-    cases += [gen_prim_magnitude(ctx.rng, big) for _ in range(ctx.budget(40, 1000))]
+    cases += [gen_prim_iterables(ctx.rng, big) for _ in range(ctx.budget(50, 400))]
+    cases += [gen_kruskal_containers(ctx.rng, big) for _ in range(ctx.budget(40, 400))]
+    cases += [gen_kruskal_magnitude(ctx.rng, big) for _ in range(ctx.budget(60, 800))]
+    cases += [gen_prim_magnitude(ctx.rng, big) for _ in range(ctx.budget(40, 500))]
     for _ in range(ctx.budget(6, 60)):
         cases += start_sweep(ctx.rng, big)
-    cases += directed_cases(ctx.rng, big, ctx.budget(12, 150))
+    cases += directed_cases(ctx.rng, big, ctx.budget(12, 60))
     cases += big_edge_family(ctx.rng, big) + big_prim_family(ctx.rng, big)
 
     k_cases, k_meta, p_cases, p_meta, ks_cases, ps_cases = [], [], [], [], [], []
@@ -1147,16 +1147,6 @@ def run(ctx: Ctx):
             ctx.count("family", str(case.get("tag", "")).split("/")[0] if str(case.get("tag", "")).startswith(("deep", "S:", "L:", "I:", "M:", "O:", "H:")) else "small-random")
             ctx.count("containers", case.get("edges_kind") or case.get("adj_kind") or "list")
         bad = oracle(case, r)
-        if bad and case.get("adj_kind") == "gen":
-            # one-shot generators as adjacency values: prim walks graph.values() once to collect the nodes and finds the
-            # iterators exhausted afterwards.  Reported finding on the unchanged tree (not modelled; see report / known_findings).
-            ctx.known_hit("C13-prim-oneshot-adjacency", f"prim with one-shot iterators as adjacency values: {bad}; e.g. "
-                          "prim({0: iter([(1, 1)]), 1: iter([(0, 1)])}) -> INFEASIBLE on a connected graph")
-            ctx.count("known_oneshot", "hit")
-            continue
-        if case.get("adj_kind") == "gen":
-            ctx.count("known_oneshot", "ok")
-            continue
         if bad:
             small = shrink(case, r) if len(ctx.violations) < 4 else case   # shrinking long edge lists is the expensive part
             rs = run_impl(small)
